@@ -225,8 +225,9 @@ PROPS = {
                        "matches, return code) must equal that of the same scan on a freshly created scanner with the same "
                        "settings. Rules expose entrypoint, filesize, pe/elf/macho fields, math/hash values, string counts, "
                        "offsets and lengths. The scanner is destroyed after the history and LeakSanitizer is run."),
-        "level_note": ("Trusts the shim; the match-limit (1,000,000 matches) and timeout endings are exercised by C15, not "
-                       "here; histories of 3-9 operations."),
+        "level_note": ("Trusts the shim; scans ending in ERROR_TOO_MANY_RE_FIBERS (9% of scans) and in a muted string "
+                       "after 1,000,000 matches (3%, about a second each) are part of the histories; timeouts are exercised "
+                       "by C15; histories of 3-9 operations."),
         "quick": (800, 45), "thorough": (40000, 600),
         "floor": 50,
         "rule": ("case = fixed 20-rule set + 1-4 generated rules, a history of 3-9 operations (75% scans). Non-trivial: a "
